@@ -222,3 +222,8 @@ def _reader_positions(r, facts):
                 pos["prev"] = tables.index_consts(rv[2][2]) | tables.index_consts(fields[2])
         out[ar] = pos
     return out
+
+
+def thorough(res):
+    from .. import engine
+    engine.sensitivity("C03", res)
